@@ -494,7 +494,11 @@ def World.setPhase (w : World) (sid : Nat) (c : Char) (R : List (List Rat)) : Ex
 /-- can a single-phase indexer in phase `c` be re-filed under `phases`? (`to_material_indexer`) -/
 def fileable (phases : List Char) (c : Char) : Bool := (phaseIndex phases c).isSome
 
-/-- `stream.phases = ps` (`ps` non-empty). -/
+def nonzeroRow (r : List Rat) : Bool := r.any (· != 0)
+
+/-- `stream.phases = ps` (`ps` non-empty).  `to_material_indexer` re-files every *non-empty* row under the new
+phases (exact label, else the other case of the letter) and raises `UndefinedPhase` — before anything is rebound —
+when that is impossible. -/
 def World.setPhases (w : World) (sid : Nat) (ps : List Char) (R : List (List Rat)) : Except Err World :=
   let s := w.stream sid
   let pt := phaseTuple ps
@@ -504,10 +508,12 @@ def World.setPhases (w : World) (sid : Nat) (ps : List Char) (R : List (List Rat
   | _ =>
     if s.multi then
       (if pt = s.phases then .ok w
+       else if (s.phases.zip (w.readMol sid)).any (fun (p, r) => nonzeroRow r && !fileable pt p) then
+         .error .undefinedPhase
        else if R.length ≠ pt.length then .error .shape
        else .ok (w.rebind sid true pt none s.th R))
     else
-      (if !fileable pt (w.c.phs s.ph) then .error .undefinedPhase
+      (if !fileable pt (w.c.phs s.ph) && (w.readMol sid).any nonzeroRow then .error .undefinedPhase
        else if R.length ≠ pt.length then .error .shape
        else .ok (w.rebind sid true pt none s.th R))
 
@@ -651,6 +657,34 @@ def World.resetThermo (w : World) (sid k : Nat) (R : List (List Rat)) : Except E
   else if R.length ≠ (w.rowsOf sid).length then .error .shape
   else .ok (w.rebind sid s.multi s.phases none k R)
 
+/-! ### in-place operations whose numbers are another property's business -/
+
+/-- An operation that rebinds no object and whose effect on the numbers is not this property's business
+(`scale`, `empty`, `mix_from` into a single-phase stream, a reaction — including one defined on another property
+package, which goes through `reset_chemicals(chemicals, container)` twice and, with the repair of
+fixes_proposed/C11-4, ends with the original data object and `_data_cache` bound again): the molar contents `R`,
+T, P and the phase it left behind are written in place. -/
+def World.sync (w : World) (sid : Nat) (T P : Rat) (ph : Option Char) (R : List (List Rat)) : Except Err World :=
+  let s := w.stream sid
+  if R.length ≠ (w.rowsOf sid).length then .error .shape
+  else
+    let w1 := w.setContents sid R
+    let phs := match ph with
+      | some c => if s.multi then w1.c.phs else upd w1.c.phs s.ph c
+      | none => w1.c.phs
+    .ok { w1 with c := { w1.c with tcs := upd w1.c.tcs s.tc (T, P), phs := phs } }
+
+/-- `MultiStream.mix_from(others, energy_balance=False)` with at least two non-empty inlets whose phases are
+`others`: the pressure is set in place, the contents become `R`.  An inlet phase the receiver cannot file makes
+`MaterialIndexer.mix_from` expand the phases and then fail with `KeyError` (it keeps using the phase tuple it read
+before expanding; reported, not this property's concern), so that case is an error here. -/
+def World.mixInto (w : World) (sid : Nat) (others : List Char) (P : Rat) (R : List (List Rat)) : Except Err World :=
+  let s := w.stream sid
+  if !s.multi then .error .precondition
+  else if !others.all (fun c => (phaseIndex s.phases c).isSome) then .error .undefinedPhase
+  else if R.length ≠ s.phases.length then .error .shape
+  else .ok ((w.setContents sid R).setP sid P)
+
 /-! ### operations of a history -/
 
 abbrev Mat := List (List Rat)
@@ -666,6 +700,8 @@ inductive Op where
   | unlink (s : Nat)
   | copyLike (s o : Nat) (R : Mat)
   | thermo (s k : Nat) (R : Mat)
+  | sync (s : Nat) (T P : Rat) (ph : Option Char) (R : Mat)
+  | mixInto (s : Nat) (others : List Char) (P : Rat) (R : Mat)
   | readMol (s : Nat)
   | readMass (s : Nat)
   | readVol (s : Nat) (V : Mat)
@@ -690,6 +726,7 @@ inductive Out where
 def Op.sids : Op → List Nat
   | .new1 .. | .newm .. => []
   | .setT s _ | .setP s _ | .setPhase s _ _ | .setPhases s _ _ | .unlink s | .thermo s _ _
+  | .sync s _ _ _ _ | .mixInto s _ _ _
   | .readMol s | .readMass s | .readVol s _ | .readF s _ _ | .writeF s _ _ _ | .get s _ _ _ _
   | .put s _ _ _ _ _ | .getFlow s _ _ _ _ | .setFlow s _ _ _ _ _ | .getTotal s _ _ | .setTotal s _ _ _ => [s]
   | .link s o _ _ _ | .copyLike s o _ => [s, o]
@@ -721,6 +758,8 @@ def World.exec (w : World) (op : Op) : Except Err (World × Out) :=
   | .unlink s => .ok (w.unlink s, .unit)
   | .copyLike s o R => (w.copyLike s o R).bind (okShape · s)
   | .thermo s k R => (w.resetThermo s k R).bind (okShape · s)
+  | .sync s T P ph R => (w.sync s T P ph R).bind (okShape · s)
+  | .mixInto s others P R => (w.mixInto s others P R).bind (okShape · s)
   | .readMol s => .ok (w, .mat none (w.readMol s))
   | .readMass s => let (w1, vid, vals) := w.readMass s; .ok (w1, .mat (some vid) vals)
   | .readVol s V => let (w1, vid, vals) := w.readVol s V; .ok (w1, .mat (some vid) vals)
